@@ -26,6 +26,9 @@ PROPS = {"C09": dict(
         "Zrnt.Proofs.C09.weights_are_subtree_sums",
         "Zrnt.Proofs.C09.weights_propagate",
         "Zrnt.Proofs.C09.score_changes_exact",
+        "Zrnt.Proofs.C09.inv_best",
+        "Zrnt.Proofs.C09.head_eq_ghost_partial",
+        "Zrnt.Proofs.C09.head_eq_ghost_false",
     ],
     modes=[dict(name="fc09", stateful=True, max_shrinks=4,
                 nontrivial=_nontrivial(("head", "findhead", "att", "block", "slot", "justify", "pin")))],
@@ -35,7 +38,7 @@ PROPS = {"C09": dict(
     rule="operation sequences (reset-separated) run on the real Go fork choice and on the Lean model+specification; counted: head/findhead/att/block/slot/justify/pin lines that the Go side executed; distinct = distinct (position, line)",
     manifest=dict(
         level_text="Lean theorems about a code-shaped model of the proto-array fork choice (invariants over all operation sequences, refinement lemmas towards the GHOST specification) plus a differential run of generated operation sequences on the real Go code, the model and the independent GHOST oracle",
-        level_note="trusted: Lean kernel, hand model tied by correspondence (every API result compared on generated histories), GHOST oracle in Spec.lean; head_eq_ghost itself is validated by correspondence against the oracle, the proved part is the structure/weights invariants",
+        level_note="trusted: Lean kernel, hand model tied by correspondence (every API result compared on generated histories), GHOST oracle in Spec.lean; head_eq_ghost is proved for all admissible histories (no finalization change), false after a prune (OnPrune family, known finding, witness proved)",
         technique="Lean 4 proof over hand model + Go/Lean/oracle differential correspondence",
         design_ref="DESIGN.md 5/C09", engine="lean"),
 )}
